@@ -503,9 +503,9 @@ func (e *refEv) eval(x *X) interface{} {
 		}
 		return e.eval(x.A[2])
 	case "elvis":
-		// a ?: b is parsed as a ? a : b (the condition node is shared, hence evaluated again)
-		if e.asBool(e.eval(x.A[0]), x.A[0]) {
-			return e.eval(x.A[0])
+		// a ?: b is a if a is true, otherwise b; a is evaluated once
+		if a := e.eval(x.A[0]); e.asBool(a, x.A[0]) {
+			return a
 		}
 		return e.eval(x.A[1])
 	case "idx":
